@@ -34,7 +34,10 @@ monitor update starts from 2 * count; C20.4 the scale-down window is count-
 bounded for both policies and instances are grouped by app; C20.6 every
 notification reaches the removal and watch passes and each handled failure
 class suspends the monitor (directly, through a closure or an inlined helper);
-C20.7 quota exceeded exactly when existing + count > quota.
+C20.7 quota exceeded exactly when existing + count > quota. Fourth round:
+C20.3 the monitor callback of the data watch runs only on a changed node
+version; C20.7 the per-proid count is published and looked up under the same
+key.
 Does NOT decide convergence and budget over sequences of evaluations.
 """
 
